@@ -585,9 +585,8 @@ def oracle_case(ck: Check, camp, defs: dict | None, opts: dict, text: str | None
 
 CORPUS_TEXTS = [
     # merge of a `properties` mapping and of a whole schema body; a list of anchors; an overridden key; a merge key in a flow mapping
-    ("jsonschema", "definitions:\n  Audit: &audit\n    type: object\n    properties: &audit_props\n      id: {type: integer}\n      created: {type: string, format: date-time}\n"
-                   "    required: [id]\n  Customer:\n    type: object\n    properties:\n      <<: *audit_props\n      email: {type: string}\n    required: [id, email]\n"
-                   "  Supplier:\n    <<: *audit\n    description: a supplier is only audited\n"),
+    ("jsonschema", "definitions:\n  Stamp:\n    type: object\n    properties: &stamp\n      rev: {type: integer}\n      at: {type: string, format: date-time}\n"
+                   "    required: &req [rev]\n  Page:\n    type: object\n    required: *req\n    properties:\n      title: {type: string}\n      <<: *stamp\n"),
     ("jsonschema", "definitions:\n  A:\n    type: object\n    properties: &p\n      x: &s {type: string}\n  B:\n    type: object\n    properties: &q\n      y: *s\n"
                    "  C:\n    type: object\n    properties:\n      <<: [*p, *q]\n      x: {type: integer}\n  D: {type: object, properties: {<<: *q, z: *s}}\n"),
     ("openapi", "openapi: 3.0.0\ninfo: {title: t, version: '1'}\npaths: {}\ncomponents:\n  schemas:\n    Base: &b\n      type: object\n      properties:\n        id: {type: integer}\n"
